@@ -56,6 +56,14 @@ type Case struct {
 	// lengths of successive runs: "" as drawn | equal (every value has the same length) | saw (long run, then shorter ones)
 	RunShape string `json:",omitempty"`
 	ShapeLen int    `json:",omitempty"`
+
+	// actions that FOLLOW the joining action (post.go): "" | discard | discard_doif |
+	// modify+discard | discard+modify | modify. The discard action removes every event
+	// that reaches it with the member pd = "1" (a flushed run carries the members of
+	// its first event), the modify action adds the member post = "1".
+	Post string `json:",omitempty"`
+	// share of events whose join field is present but is not a JSON string
+	NonStrPct int `json:",omitempty"`
 }
 
 // Line is one input line of one (source, stream).
@@ -78,6 +86,13 @@ type Line struct {
 	HasSvc   bool   `json:",omitempty"`
 	HasLvl   bool   `json:",omitempty"`
 	RestCan  string `json:"-"` // canonical form of the other members of the event
+	// the action behind the joining action discards the event that carries this
+	// line's members (the line itself if it is not joined, the whole run if it starts one)
+	PostDrop bool   `json:",omitempty"`
+	PD       string `json:",omitempty"` // value of the marker member pd ("" = absent)
+	// the join field is present but holds this non-string JSON value (HasField is false:
+	// the event has no string field to join)
+	NonStr string `json:",omitempty"`
 
 	// k8s
 	Partial bool
